@@ -63,6 +63,11 @@ def run(ck: Checker, prog: Program, tier: str):
              only=("handle_dissimilar_time_steps_by", "fft_settings"), why="records with other time steps would be handled by the default policy", floor=5)
     ck.guard(_validation, ck, prog)
     ck.guard(_history, ck, prog)
+    # the FFT length in force is the caller's request or the length needed by this call's records, whichever is larger: a
+    # request is not replaced by something that depends on the companions of a recording (rule of C01)
+    from . import c01
+    with ck.borrow(c01, P + "R5+"):
+        ck.guard(c01._r7, ck, prog)
     for q in ROW_BODIES[:2]:
         ck.guard(_group_axis, ck, prog, q)
 
@@ -660,15 +665,15 @@ def _history(ck: Checker, prog: Program):
     for q in ["processing.process"] + ROW_BODIES + ["processing.azimuthal_hvsr_processing", "processing.diffuse_field_hvsr_processing"]:
         f = prog.func(q)
         s = eng.summary(f)
-        on_records = [e for e in s.effects if e.origin[0] == "P" and e.origin[1] == 0]
+        on_records = [e for e in s.effects if (e.origin[0] == "P" and e.origin[1] == 0) or e.origin[0] == "G"]
         groups = group_effects(prog, on_records)
         if not groups:
-            ck.ok(P + "R5", q, f"the caller's recordings are not modified ({len(s.effects)} effects in the summary)")
+            ck.ok(P + "R5", q, f"neither the caller's recordings nor module-level state are modified ({len(s.effects)} effects in the summary)")
         for (func, text), effs in groups.items():
             e = effs[0]
             ck.violation(P + "R5", func, text,
-                         f"processing modifies the caller's recording ({describe_effect(e)}): the curve of a recording would depend on how "
-                         f"often it has been processed before; entry {q}", loc=f.loc(), path=chain_text(e))
+                         f"processing modifies {'module-level state' if e.origin[0] == 'G' else 'the caller\'s recording'} ({describe_effect(e)}): the curve of a "
+                         f"recording would depend on what has been processed before; entry {q}", loc=f.loc(), path=chain_text(e))
 
 
 def _group_axis(ck: Checker, prog: Program, q: str):
